@@ -6,5 +6,5 @@ export CARGO_NET_OFFLINE=true
 mkdir -p work evidence
 (cd lean && lake build Cadence driver)
 cp /repo/Cargo.lock harness/Cargo.lock 2>/dev/null || true
-(cd harness && cargo build --release --offline --bins && cargo build --profile nodebug --offline --bin macros --bin fmt --bin holder)
+(cd harness && cargo build --release --offline --bins && cargo build --profile nodebug --offline --bin macros --bin fmt --bin holder && cargo test --release --offline --test macros_cfg_test --no-run)
 echo "setup ok"
